@@ -4,7 +4,6 @@ import (
 	"encoding/xml"
 
 	"mellium.im/xmpp/commands"
-	"mellium.im/xmpp/crypto"
 	"mellium.im/xmpp/disco"
 	"mellium.im/xmpp/disco/info"
 	"mellium.im/xmpp/form"
@@ -105,8 +104,7 @@ func extraTypes() []*typeDesc {
 			}
 			return eqCaps{uint64(c.Hash), c.Node, c.Ver}
 		},
-		seeds:  []string{`<c xmlns='http://jabber.org/protocol/caps' hash='sha-1' node='http://code.google.com/p/exodus' ver='QgayPKawpkPSDYmwT/WM94uAlu0='/>`},
-		corpus: []interface{}{disco.Caps{Hash: crypto.SHA1, Node: "n", Ver: ""}},
+		seeds: []string{`<c xmlns='http://jabber.org/protocol/caps' hash='sha-1' node='http://code.google.com/p/exodus' ver='QgayPKawpkPSDYmwT/WM94uAlu0='/>`},
 	})
 
 	type eqNote struct {
